@@ -811,3 +811,83 @@ Lemma sample_timed_ok :
   len (logged_of (trace_of sample_timed)) = 6 /\
   get_db (replay 86400000 (aof_log (run_tevs sample_timed))) 0 <> get_db (run_tevs sample_timed) 0.
 Proof. repeat split; try (vm_compute; reflexivity). intro H; vm_compute in H; discriminate H. Qed.
+
+(** ================= re-sending the file over a connection IS the redo ================= *)
+(** what the harness (and any external redo tool) does: the logged commands are sent as
+    request frames over a fresh connection, i.e. through process_frame.  A logged name is
+    never transaction control and contains no blanks, so every frame goes straight to
+    process_normal_command in database 0: the result is [replay]. *)
+Definition plain_name (u : bytes) : bool :=
+  forallb (fun c => negb (is_space c)) u
+  && negb (beq u (bs "MULTI")) && negb (beq u (bs "EXEC")) && negb (beq u (bs "DISCARD"))
+  && negb (beq u (bs "WATCH")) && negb (beq u (bs "UNWATCH")) && negb (beq u (bs "AUTH"))
+  && negb (beq u (bs "SELECT")).
+Lemma write_names_plain : forallb plain_name write_commands = true.
+Proof. vm_compute. reflexivity. Qed.
+Lemma bmem_In x l : bmem x l = true -> In x l.
+Proof.
+  induction l as [|y l IH]; cbn [bmem]; [discriminate|]. intros H. apply orb_prop in H as [H|H].
+  - apply beq_eq in H. left. symmetry. exact H.
+  - right. exact (IH H).
+Qed.
+Lemma is_space_upper1 c : is_space (upper1 c) = is_space c.
+Proof. unfold is_space, upper1. destruct ((97 <=? c) && (c <=? 122)) eqn:E; [|reflexivity]. lia. Qed.
+Lemma nospace_upper b : forallb (fun c => negb (is_space c)) (upper b) = forallb (fun c => negb (is_space c)) b.
+Proof. unfold upper. induction b as [|c b IH]; [reflexivity|]. cbn [map forallb]. rewrite is_space_upper1, IH. reflexivity. Qed.
+Lemma drop_while_nospace b : forallb (fun c => negb (is_space c)) b = true -> drop_while is_space b = b.
+Proof. destruct b as [|c b]; [reflexivity|]. cbn [forallb drop_while]. intros H. apply andb_prop in H as [H _]. apply negb_true_iff in H. rewrite H. reflexivity. Qed.
+Lemma forallb_rev {A} (p : A -> bool) l : forallb p (rev l) = forallb p l.
+Proof. induction l as [|x l IH]; [reflexivity|]. cbn [rev forallb]. rewrite forallb_app, IH. cbn [forallb]. rewrite andb_true_r. apply andb_comm. Qed.
+Lemma trim_nospace b : forallb (fun c => negb (is_space c)) b = true -> trim b = b.
+Proof.
+  intros H. unfold trim. rewrite (drop_while_nospace b H).
+  rewrite drop_while_nospace by (rewrite forallb_rev; exact H). apply rev_involutive.
+Qed.
+
+Lemma resend_is_normal now s cn parts o :
+  is_logged parts = true -> s_password s = None ->
+  zlookup replay_conn (s_conns s) = Some cn -> c_db cn = 0 -> c_intx cn = false ->
+  process_frame now s replay_conn (FArray parts) o = normal_command now s replay_conn 0 parts o.
+Proof.
+  unfold is_logged. intros Hl Hp Hc Hd Hi. destruct parts as [|first rest]; [discriminate|].
+  destruct first; try discriminate.
+  pose proof write_names_plain as W. rewrite forallb_forall in W.
+  specialize (W (upper b) (bmem_In _ _ Hl)). unfold plain_name in W.
+  repeat match type of W with (_ && _) = true => apply andb_prop in W; destruct W as [W ?] end.
+  repeat match goal with X : negb _ = true |- _ => apply negb_true_iff in X end.
+  rewrite nospace_upper in W.
+  unfold process_frame. rewrite Hc, Hp. cbn [andb]. rewrite (trim_nospace b W).
+  repeat match goal with X : beq (upper b) _ = false |- _ => rewrite X end.
+  rewrite Hi, Hd. reflexivity.
+Qed.
+
+(** the connection of the redo stays in database 0, outside MULTI *)
+Definition resend_step (now : Z) (s : server) (parts : list frame) : server :=
+  snd (process_frame now s replay_conn (FArray parts) None).
+Definition resend (now : Z) (log : list (list frame)) : server := fold_left (resend_step now) log replay_init.
+Lemma resend_is_replay now log :
+  forallb is_logged log = true -> resend now log = replay now log.
+Proof.
+  unfold resend, replay, replay_o, no_oracle.
+  assert (G : forall l s, forallb is_logged l = true -> s_password s = None ->
+                (exists cn, zlookup replay_conn (s_conns s) = Some cn /\ c_db cn = 0 /\ c_intx cn = false) ->
+                fold_left (resend_step now) l s = fold_left (replay_step now) (map (fun p => (p, None)) l) s).
+  { induction l as [|p l IH]; intros s Hl Hp (cn & Hc & Hd & Hi); [reflexivity|].
+    cbn [forallb] in Hl. apply andb_prop in Hl as [Hl1 Hl2]. cbn [map fold_left].
+    unfold resend_step at 2. unfold replay_step at 2. cbn [fst snd].
+    rewrite (resend_is_normal now s cn p None Hl1 Hp Hc Hd Hi).
+    assert (Hsel : beq (cmd_name p) (bs "SELECT") = false).
+    { unfold is_logged in Hl1. unfold cmd_name. destruct p as [|[] ?]; try discriminate.
+      pose proof write_names_plain as W. rewrite forallb_forall in W.
+      specialize (W (upper b) (bmem_In _ _ Hl1)). unfold plain_name in W.
+      apply andb_prop in W as [_ W]. apply negb_true_iff in W. exact W. }
+    destruct (nc_conns now s replay_conn 0 p None Hp Hsel) as [Hcs Hps].
+    apply IH; [exact Hl2|exact Hps|]. exists cn. rewrite Hcs. auto. }
+  intros Hl. apply G; [exact Hl|reflexivity|]. eexists. split; [reflexivity|]. split; reflexivity.
+Qed.
+(** every command in a server's log is a logged command *)
+Lemma nc_log_logged now s c dbi parts o :
+  forallb is_logged (s_aof s) = true -> forallb is_logged (s_aof (snd (normal_command now s c dbi parts o))) = true.
+Proof. intros H. rewrite nc_aof. destruct (is_logged parts) eqn:E; [cbn [forallb]; rewrite E, H; reflexivity|exact H]. Qed.
+Lemma logged_of_all_logged tr : forallb is_logged (logged_of tr) = true.
+Proof. unfold logged_of. apply forallb_forall. intros p Hp. apply filter_In in Hp as [_ Hp]. exact Hp. Qed.
